@@ -102,6 +102,7 @@ type Conn struct {
 	inner *clientHello
 
 	hpkeCtx *hpke.Receipient
+	hpkeKey int // index in keys of the key hpkeCtx was set up with
 
 	keys             []Key
 	debugf           func(string, ...any)
@@ -190,14 +191,21 @@ func (c *Conn) processEncryptedClientHello(h *clientHello, isRetry bool) (*clien
 		return nil, nil
 	}
 	var innerBytes []byte
-	for _, key := range c.keys {
+	for i, key := range c.keys {
 		cfg, err := Config(key.Config).Spec()
 		if err != nil || cfg.ID != h.echExt.ConfigID || slices.IndexFunc(cfg.CipherSuites, func(cs CipherSuite) bool {
 			return cs == h.echExt.CipherSuite
 		}) == -1 {
 			continue
 		}
-		if c.hpkeCtx == nil && len(h.echExt.Enc) > 0 {
+		// Several keys may share the same config id. Each candidate gets
+		// its own HPKE context, and a retried ClientHello is only opened
+		// with the key that accepted the first one.
+		hpkeCtx := c.hpkeCtx
+		if hpkeCtx != nil && i != c.hpkeKey {
+			continue
+		}
+		if hpkeCtx == nil && len(h.echExt.Enc) > 0 {
 			echPriv, err := hpke.ParseHPKEPrivateKey(cfg.KEM, key.PrivateKey)
 			if err != nil {
 				return nil, err
@@ -207,22 +215,26 @@ func (c *Conn) processEncryptedClientHello(h *clientHello, isRetry bool) (*clien
 			if err != nil {
 				continue
 			}
-			c.hpkeCtx = ctx
+			hpkeCtx = ctx
 		}
-		if c.hpkeCtx == nil {
+		if hpkeCtx == nil {
 			return nil, ErrIllegalParameter
 		}
 		aad, err := h.marshalAAD()
 		if err != nil {
 			return nil, err
 		}
-		innerBytes, err = c.hpkeCtx.Open(aad, h.echExt.Payload)
+		b, err := hpkeCtx.Open(aad, h.echExt.Payload)
 		if err != nil {
 			continue
 		}
 		if string(cfg.PublicName) != h.ServerName {
 			return nil, ErrIllegalParameter
 		}
+		innerBytes = b
+		c.hpkeCtx = hpkeCtx
+		c.hpkeKey = i
+		break
 	}
 	if innerBytes == nil {
 		// Section 7.1.1, regarding a retried ClientHello:
